@@ -33,7 +33,9 @@ CLAIMS = {
  'C05': dict(tech='contract-based deductive verification (pyvc + z3): MemoryZone contracts, placement block of the engine',
    text='MemoryZone.__init__ / cursor setter raise exactly outside the zone (class invariant start <= cursor <= end+1); the first-pass '
         'block proves every placed line lies inside its zone and origins relative to a zone are offset from its start.',
-   note='Zone manager / create_memzone not yet under contract; include handling is under the C17 per-line block (zone unchanged by an include).'),
+   note='Also under contract: MemoryZoneManager.create_zone (rejects a taken name, a zone not contained in GLOBAL, inverted or too wide) and the '
+        'containment loop of MemoryZoneManager.__init__ (every predefined zone inside GLOBAL); include handling is under the C17 per-line block '
+        '(zone unchanged by an include). The regex parsing of #create_memzone and .memzone lines is not under contract.'),
  'C06': dict(tech='contract-based deductive verification (pyvc + z3): LabelScope lookup and definition',
    text='Contracts on the recursive LabelScope.get_label_value / set_label_value (and the GlobalLabelScope override): a lookup yields '
         'the value from the first table on the LOCAL->FILE->GLOBAL chain, a definition changes exactly the table of the label\'s kind, '
